@@ -233,6 +233,11 @@ class QGen:
                 f = r.random() < 0.85
             else:
                 f = False
+                # a first-command used mid-query ignores its input: flags of the state (volatility, caching switched
+                # off) must survive it
+                if acts and acts[-1].split("-")[0] in ("vol", "nocache", "let", "ns", "attr_up") and r.random() < 0.4:
+                    f = True
+                    self.feat("first_command_mid_query_after_flag")
             acts.append(self.action(depth, i if first else 1 + i, f))
         if depth > 0:
             self._numeric_prefix = saved
